@@ -52,13 +52,14 @@ def make_cases(ctx, cid, en, flags, mode=None):
     main_ints = [(tv, vs) for tv, vs in main_ints if vs]
     tints = enumgen.isenum_matrix(kind, decl)
     rerun = rng.random() < 0.3
-    extra = ([enumgen.generated_sexp(en, decl)] if rerun else []) + [["flags"] + flags, ["target", str(target)], ["strs"] + [Q(s) for s in strs],
+    hops = enumgen.history(rng, en, decl, codec=[f for f in flags if f != "gorm"])
+    extra = ([enumgen.generated_sexp(en, decl)] if rerun else []) + [enumgen.history_sexp(hops), ["flags"] + flags, ["target", str(target)], ["strs"] + [Q(s) for s in strs],
              ["jsons"] + [l for _, l in jsons], ["sqls"] + [l for _, l in sqls],
              ["ints"] + [[tv] + [str(v) for v in vs] for tv, vs in main_ints], ["encs"] + [str(v) for v in encs]]
     args = ["enum"] + ["-" + f for f in flags] + lay["sel"]
     main = {"id": cid, "en": en, "decl": decl, "flags": flags, "files": lay["files"], "verbose": lay["verbose"], "mode": lay["mode"] + ("+spread" if lay["spread"] and lay["mode"].startswith("file") else ""),
             "runs": [{"args": args}] * (2 if rerun else 1), "rerun": rerun,
-            "oracle": {".": enumgen.oracle_c12(en, decl, flags, target, strs, jsons, sqls, main_ints, encs, tints)},
+            "oracle": {".": enumgen.oracle_c12(en, decl, flags, target, strs, jsons, sqls, main_ints, encs, tints, hops)}, "hist": hops,
             "sexp": enumgen.case_sexp(cid, "c12", en, extra), "cmd": "shoot " + " ".join(args), "kind": "main",
             "probes": {"strs": strs, "jsons": [t for t, _ in jsons], "sqls": [e for e, _ in sqls]}}
     sub = {"id": cid + "t", "en": en, "decl": decl, "flags": flags, "kind": "trunc",
